@@ -61,6 +61,7 @@ impl GraphStore for GraphEngine {
 
     fn snapshot(&self) -> Self::Snapshot {
         let _publish = self.publish_read_guard();
+        let _vh_publish = vheld!("publish_lock");
         let i2e = Arc::new(self.scan_i2e_records());
         vpoint!("snapshot.after_i2e");
         let inner = self.begin_read_published();
